@@ -1,157 +1,9 @@
 (** Monitors: each property as a decidable predicate on ONE observation of the implementation
     (payload + result + trace). They do not use the interpreter model. *)
-From Deserr Require Import Base Pointer Kinds Value Prog Scalars Types Deser Derive.
+From Deserr Require Import Base Pointer Kinds Value Prog Scalars Types Deser Derive Monitors.
 From Deserr.checks Require Import KDeser.
 
-(** ** C01: linearity of the error values *)
-
-(** does call number [i] create an error value *)
-Definition creates (c : call) : bool := match c with CUser _ _ => false | _ => true end.
-
-Fixpoint created_ids (tr : list call) (i : N) : list N :=
-  match tr with
-  | [] => []
-  | c :: r => if creates c then i :: created_ids r (N.succ i) else created_ids r (N.succ i)
-  end.
-
-Definition call_uses (c : call) : list N :=
-  match c with
-  | CError _ s _ _ => match s with Some x => [x] | None => [] end
-  | CMerge _ s _ o _ => (match s with Some x => [x] | None => [] end) ++ [o]
-  | CMergeU _ s _ _ => match s with Some x => [x] | None => [] end
-  | CUser _ _ => []
-  end.
-
-Definition count_N (x : N) (l : list N) : nat := List.length (filter (N.eqb x) l).
-
-(** every use refers to an earlier call that created an error *)
-Fixpoint uses_earlier (tr : list call) (i : N) (created : list N) : bool :=
-  match tr with
-  | [] => true
-  | c :: r =>
-    forallb (fun u => (u <? i)%N && existsb (N.eqb u) created) (call_uses c)
-    && uses_earlier r (N.succ i) created
-  end.
-
-(** the multiset [final :: uses] equals the set of created ids: each error value is consumed
-    exactly once, by a later call or by being returned *)
-Definition linear (tr : list call) (final : list N) : bool :=
-  let created := created_ids tr 0 in
-  let consumed := (final ++ flat_map call_uses tr)%list in
-  Nat.eqb (List.length consumed) (List.length created)
-  && forallb (fun x => Nat.eqb (count_N x consumed) 1) created
-  && uses_earlier tr 0 created.
-
-Definition c01_ok (r : res) (tr : list call) : bool :=
-  match r with
-  | ROk _ => forallb (fun c => negb (creates c)) tr
-  | RErr e => linear tr [e]
-  | RPanic _ => true
-  end.
-
 Definition mon_c01 (c : dcase) : bool := c01_ok (dc_res c) (dc_trace c).
-
-(** ** C04: every report is true of the payload at its location *)
-
-Fixpoint lookup_key (k : string) (ms : list (string * value)) : option value :=
-  match ms with
-  | [] => None
-  | (k', v) :: r => if String.eqb k' k then Some v else lookup_key k r
-  end.
-
-Fixpoint resolve (v : value) (path : list step) : option value :=
-  match path with
-  | [] => Some v
-  | SKey k :: r =>
-    match v with VMap ms => match lookup_key k ms with Some x => resolve x r | None => None end
-    | _ => None end
-  | SIndex i :: r =>
-    match v with VSeq l => match nth_opt l (N.to_nat i) with Some x => resolve x r | None => None end
-    | _ => None end
-  end.
-
-Fixpoint nodup_keys (v : value) : bool :=
-  match v with
-  | VSeq l => forallb nodup_keys l
-  | VMap ms =>
-    (fix go (ms : list (string * value)) (seen : list string) : bool :=
-       match ms with
-       | [] => true
-       | (k, x) :: r => negb (mem_str k seen) && nodup_keys x && go r (k :: seen)
-       end) ms []
-  | _ => true
-  end.
-
-Definition kind_true (root : value) (k : ekind) (l : vpr) : bool :=
-  match resolve root (to_owned l) with
-  | None => false
-  | Some sub =>
-    match k with
-    | IncorrectValueKind a acc => value_eqb a sub && negb (existsb (vkind_eqb (kind_of sub)) acc)
-    | BadSequenceLen a n =>
-      match sub with VSeq vs => list_eqb value_eqb a vs && negb (N.eqb (N.of_nat (List.length vs)) n) | _ => false end
-    | MissingField f =>
-      match sub with VMap ms => match lookup_key f ms with None => true | Some _ => false end | _ => false end
-    | UnknownKey key acc =>
-      match sub with VMap ms => match lookup_key key ms with Some _ => negb (mem_str key acc) | None => false end
-      | _ => false end
-    | UnknownValue s acc =>
-      match sub with VStr s' => String.eqb s s' && negb (mem_str s acc) | _ => false end
-    | Unexpected _ => true
-    end
-  end.
-
-(** locations of all calls in the error tree rooted at call [id] ([fuel] bounds the descent) *)
-Fixpoint locs_under (tr : list call) (fuel : nat) (id : N) : list vpr :=
-  match fuel with
-  | O => []
-  | S f =>
-    match nth_opt tr (N.to_nat id) with
-    | Some (CError _ s _ l) => l :: match s with Some x => locs_under tr f x | None => [] end
-    | Some (CMerge _ s _ o l) =>
-      (l :: locs_under tr f o ++ match s with Some x => locs_under tr f x | None => [] end)%list
-    | Some (CMergeU _ s _ l) => l :: match s with Some x => locs_under tr f x | None => [] end
-    | _ => []
-    end
-  end.
-
-Definition call_true (root : value) (tr : list call) (c : call) : bool :=
-  match c with
-  | CError _ _ k l => kind_true root k l
-  | CMerge _ _ _ o l =>
-    is_some (resolve root (to_owned l))
-    && forallb (fun l' => anc l l') (locs_under tr (List.length tr) o)
-  | CMergeU _ _ _ l => is_some (resolve root (to_owned l))
-  | CUser _ args =>
-    forallb (fun a => match a with ALoc p => is_some (resolve root p) | _ => true end) args
-  end.
-
-(** hypotheses of C04: unique keys per object; no variant field whose key is the enum's tag *)
-Fixpoint tag_clash_free (t : ty) : bool :=
-  let fields_ok := fix go (fs : list (cfield ty)) : bool :=
-                     match fs with [] => true | f :: r => tag_clash_free (cf_ty f) && go r end in
-  match t with
-  | TVec t' | TArray _ t' | THashSet t' | TBTreeSet t' | TMap _ _ t' | TOption t' | TBox t' => tag_clash_free t'
-  | TTuple2 a b => tag_clash_free a && tag_clash_free b
-  | TTuple3 a b c => tag_clash_free a && tag_clash_free b && tag_clash_free c
-  | TStruct s _ => fields_ok (cs_fields s)
-  | TEnumTagged tag vs _ =>
-    (fix gov (vs : list (cvariant ty)) : bool :=
-       match vs with
-       | [] => true
-       | v :: r =>
-         match cv_data v with
-         | VDUnit => true
-         | VDNamed s =>
-           fields_ok (cs_fields s)
-           && (fix nokey (fs : list (cfield ty)) : bool :=
-                 match fs with [] => true | f :: r' => negb (String.eqb (cf_key f) tag) && nokey r' end)
-                (cs_fields s)
-         end && gov r
-       end) vs
-  | TFrom i _ _ | TTryFrom i _ _ => tag_clash_free i
-  | _ => true
-  end.
 
 Definition c04_applicable (c : dcase) : bool :=
   nodup_keys (dc_val c)
